@@ -25,6 +25,7 @@ type fakeClient struct {
 	writeErr  error
 	onWrite   func(data []byte) // observation hook (called outside the lock)
 	errC      chan error
+	onEnter func()
 }
 
 func (c *fakeClient) Start(url string) error {
@@ -64,6 +65,9 @@ func (c *fakeClient) IsConnected() bool {
 	return c.connected
 }
 func (c *fakeClient) Write(data []byte) error {
+	if h := c.onEnter; h != nil {
+		h() // the write has started (gate): the connection may drop before it completes
+	}
 	c.mu.Lock()
 	if !c.connected {
 		c.mu.Unlock()
